@@ -65,6 +65,7 @@ fn main() {
         "pid-run" => pid::run(rest),
         "rpc-run" => rpc::run(rest),
         "rpc-free" => rpc::run_free(rest),
+        "rpc-stall" => rpc::run_stall(rest),
         "inbound-run" => inbound::run(rest),
         "localproc-run" => localproc::run(rest),
         "localproc-race" => localproc::run_race(rest),
